@@ -263,7 +263,9 @@ CLAIMED["C15"] = dict(
          "a delivery changes exactly the addressed actor's inbox exactly once and nothing else, a stopped actor receives nothing; cancel(id) removes "
          "that pending send and only that one, and what is not pending never fires; stop() stops the actor and every actor in its children map, "
          "empties the map, leaves none of its delayed sends, revives nobody and is idempotent. 'stop() stops every spawned child' is REFUTED at HEAD "
-         "for a child whose explicit id was reused while alive (C15_stop_cascade_refuted_for_reused_id = recorded finding F30). Two defects found by "
+         "for a child whose explicit id was reused while alive (C15_stop_cascade_refuted_for_reused_id = recorded finding F30: async engine and blocking "
+         "sync spawns; a thread-managed sync child is stopped by its runner thread's poll - runner_polls, C15_runner_poll_never_revives, "
+         "C15_runner_poll_touches_orphans_only - but stays in the registry, C15_reused_id_threaded_child_stopped_but_registered). Two defects found by "
          "the correspondence were repaired by fix: commits (F20 registry not cleaned by stop(), F29 sync runner pops a reused id). Tied to the code by "
          "K-actor on both engines under virtual time; handlers of different actors interleaving inside one macrostep are outside the model.",
     technique="Coq proof over executable actor-bookkeeping model + vm_compute correspondence (K-actor) + monitor",
